@@ -36,6 +36,13 @@ different keys up to SHA-256 collisions); the hash itself is trusted. -/
 theorem tie_key_derivation :
     Gen.Token.keyDerivationBody = "{ sum := sha256.Sum256([]byte(s)) return sum[:] }" := by decide
 
+/-- every paginated handler (models, read, changes, stores) hands the server's token encoder to its query -/
+theorem tie_encoder_sites : Gen.Token.encoderSites =
+    ["authorization_models.go:commands.WithReadAuthModelsQueryEncoder(s.encoder)",
+     "read.go:commands.WithReadQueryEncoder(s.encoder)",
+     "read_changes.go:commands.WithReadChangesQueryEncoder(s.encoder)",
+     "stores.go:commands.WithListStoresQueryEncoder(s.encoder)"] := by decide
+
 /-! ## Serializer -/
 
 theorem cut1_append (b : UInt8) (u t : Bytes) (h : b ∉ u) : cut1 b (u ++ b :: t) = some (u, t) := by
